@@ -139,6 +139,7 @@ class Sem:
     # ---- the universe of atoms two types can tell apart
     def universe(self, ts):
         strs, nums, keys = {"zz"}, {7919}, {"k_zz", "k_yy", "k_xx"}
+        self.pattern_keys = set()      # names made to match the key patterns of index signatures: tried first as extra keys
         seen = set()
         def go(t):
             t = strip(t)
@@ -162,6 +163,15 @@ class Sem:
                     keys.add(name); go(pt)
                 if t[2] is not None:
                     go(t[2][0]); go(t[2][1][1])
+                    # the names a finite key type admits are keys objects can carry
+                    for kn in nodes(t[2][0]):
+                        kl = lit_of(kn)
+                        if kl is not None and kl[0] == "s": keys.add(kl[1])
+                        elif kn[0] == "Tpl":
+                            stem = "".join({"string": "", "number": "1", "boolean": "true"}.get(i[0], i[1] if i[0] == "const" else "") for i in kn[1])
+                            for cand in (stem, stem + "b", stem + "c", stem + "2", "7"):
+                                if cand and tpl_match(kn[1], cand):
+                                    keys.add(cand); self.pattern_keys.add(cand)
             elif k in ("AnyOf", "AllOf"):
                 for x in t[1]: go(x)
             elif k == "Ref":
@@ -267,7 +277,7 @@ class Sem:
             if t[2] is not None:
                 kt, (req, vt) = t[2]
                 declared = {n for n, _ in t[1]}
-                extra_keys = [x for x in sorted(keys, key=lambda x: (not x.startswith('k_'), x)) if x not in declared and self.member(kt, S(x), True)]
+                extra_keys = [x for x in sorted(keys, key=lambda x: (x not in getattr(self, 'pattern_keys', ()), not x.startswith('k_'), x)) if x not in declared and self.member(kt, S(x), True)]
                 vals = self._cap(self._enum(vt, uni, depth - 1, cap), 4)
                 more = [OBJ(o[1] + [(ek, x)]) for o in out[:cap] for ek in extra_keys[:2] for x in vals]
                 # two (and three) extra keys with different values: an object can escape several alternatives through different keys
